@@ -4,8 +4,9 @@ CONSTANTS
   Mode = "honest"
   MaxPkts = @@PKTS@@
   MaxLen = @@LEN@@
+  BodyClasses = @@CONTENTS@@
   MaxStall = @@STALL@@
-  Chunking = "all"
+  Chunking = "@@CHUNK@@"
   Dev = {}
   Emit = TRUE
 INIT Init
